@@ -54,22 +54,22 @@ type Resp struct {
 
 // Exchange is one logged request/response.
 type Exchange struct {
-	Seq        int       `json:"seq"`
-	Time       time.Time `json:"time"`
-	Method     string    `json:"method"`
-	URL        string    `json:"url"` // as requested: scheme://Host header + request target
-	Path       string    `json:"path"`
-	Attempt    int       `json:"attempt"` // 0-based attempt number for this path
-	Status     int       `json:"status"`
+	Seq        int         `json:"seq"`
+	Time       time.Time   `json:"time"`
+	Method     string      `json:"method"`
+	URL        string      `json:"url"` // as requested: scheme://Host header + request target
+	Path       string      `json:"path"`
+	Attempt    int         `json:"attempt"` // 0-based attempt number for this path
+	Status     int         `json:"status"`
 	Header     [][2]string `json:"header,omitempty"`
-	EntityLen  int64     `json:"entity_len"`
-	EntitySHA1 string    `json:"entity_sha1"` // hex, of the entity bytes after transfer-decoding
-	Encoding   string    `json:"encoding,omitempty"`
-	Chunked    bool      `json:"chunked,omitempty"`
-	WireLen    int64     `json:"wire_len"` // whole response message: status line + header + framed body
-	Held       bool      `json:"held,omitempty"`
-	Sent       bool      `json:"sent"` // the whole response was written to the socket without an error
-	Unknown    bool      `json:"unknown,omitempty"` // no route: answered 404
+	EntityLen  int64       `json:"entity_len"`
+	EntitySHA1 string      `json:"entity_sha1"` // hex, of the entity bytes after transfer-decoding
+	Encoding   string      `json:"encoding,omitempty"`
+	Chunked    bool        `json:"chunked,omitempty"`
+	WireLen    int64       `json:"wire_len"` // whole response message: status line + header + framed body
+	Held       bool        `json:"held,omitempty"`
+	Sent       bool        `json:"sent"`              // the whole response was written to the socket without an error
+	Unknown    bool        `json:"unknown,omitempty"` // no route: answered 404
 }
 
 // Origin is a programmable site on a loopback address.
